@@ -489,7 +489,7 @@ func evalC16T(tc *C16Trans) *c16Result {
 		rs, frs := snapshot(e.ipt, e.sets), snapshot(fe.ipt, fe.sets)
 		res.stageDumps[stage] = [2]string{e.ipt.Dump("filter"), e.sets.Dump()}
 		before := res.counters["flows_compared"]
-		judgeFlows(model, rs, frs, stage, rejectedBatch, res)
+		judgeFlows(model, rs, frs, stage, rejectedBatch, stage == "-after-events", res)
 		res.counters["flows_compared"+stage] += res.counters["flows_compared"] - before
 	}
 	if tc.Via == "events" {
